@@ -164,4 +164,60 @@ theorem C15_witness_lock_leak :
 
 example : BfeVerif.Generated.C15.lockExits.any (fun e => e.1 == "bal_table.go:BalTable.BalTableReload") = true := by decide
 
+/-! ### module data: a reload that does not touch the replaced value cannot hurt a request in flight -/
+
+theorem mstep_inv (s : MSt) (st : MStep) (ht : ∀ v, st ≠ .reload v true)
+    (h : s.dead = [] ∧ ∀ o ∈ s.out, o.2.2 = some o.2.1) :
+    (mstep s st).dead = [] ∧ ∀ o ∈ (mstep s st).out, o.2.2 = some o.2.1 := by
+  obtain ⟨hd, ho⟩ := h
+  cases st with
+  | reload v t =>
+    cases t with
+    | true => exact absurd rfl (ht v)
+    | false => exact ⟨by simp [mstep, hd], by simpa [mstep] using ho⟩
+  | take i => exact ⟨by simp [mstep, hd], by simpa [mstep] using ho⟩
+  | use i =>
+    simp only [mstep]
+    split
+    · refine ⟨hd, fun o hmem => ?_⟩
+      simp only [List.mem_append, List.mem_singleton] at hmem
+      rcases hmem with hmem | rfl
+      · exact ho o hmem
+      · simp [answer, hd]
+    · exact ⟨hd, ho⟩
+  | handle =>
+    refine ⟨by simp [mstep, hd], fun o hmem => ?_⟩
+    simp only [mstep, List.mem_append, List.mem_singleton] at hmem
+    rcases hmem with hmem | rfl
+    · exact ho o hmem
+    · simp [answer, hd]
+
+/-- **in-flight requests finish with the data they took**: in every interleaving of reloads, takes and uses in which no
+    reload touches the value it replaced, every `use` (and every whole request) is answered by exactly the version it
+    took — never a failure, never newer data. -/
+theorem C15_module_inflight (steps : List MStep) (ht : ∀ v, MStep.reload v true ∉ steps) :
+    ∀ o ∈ (mrun steps).out, o.2.2 = some o.2.1 := by
+  unfold mrun
+  suffices h : ∀ (l : List MStep) (s : MSt), (∀ v, MStep.reload v true ∉ l) →
+      (s.dead = [] ∧ ∀ o ∈ s.out, o.2.2 = some o.2.1) →
+      ((l.foldl mstep s).dead = [] ∧ ∀ o ∈ (l.foldl mstep s).out, o.2.2 = some o.2.1) from
+    (h steps {} ht ⟨rfl, by simp⟩).2
+  intro l
+  induction l with
+  | nil => intro s _ hs; exact hs
+  | cons st rest ih =>
+    intro s hl hs
+    exact ih (mstep s st) (fun v hv => hl v (List.mem_cons_of_mem _ hv))
+      (mstep_inv s st (fun v e => hl v (by simp [e])) hs)
+
+/-- no module reload of the CURRENT source touches the value it replaces (mod_geo loadConfData, the rule-table
+    `Update`s of mod_block / mod_redirect / mod_rewrite): regenerated from the source on every run. -/
+theorem C15_module_reloads_keep_old_data : ∀ e ∈ BfeVerif.Generated.C15.moduleSwaps, e.2 = false := by decide
+
+/-- what closing the replaced database does to a request that took it before the reload -/
+theorem C15_witness_module_close :
+    (mrun [.take 1, .reload 1 true, .use 1, .handle]).out = [("U1", 0, none), ("H", 1, some 1)] := by decide
+
+example : BfeVerif.Generated.C15.moduleSwaps.any (fun e => e.1 == "mod_geo:ModuleGeo.loadConfData") = true := by decide
+
 end BfeVerif.C15
